@@ -84,6 +84,7 @@ func run(repo, hooks, out string) error {
 	nsites := 0
 	publishHooked := false
 	var siteList []string
+	var unredirected []string
 	for _, p := range pkgs {
 		if len(p.Errors) > 0 {
 			return fmt.Errorf("package %s: %v", p.PkgPath, p.Errors[0])
@@ -134,10 +135,14 @@ func run(repo, hooks, out string) error {
 						return true
 					}
 					switch se.Sel.Name {
-					case "Create", "Open", "Rename":
+					case "Create", "Open", "Rename", "OpenFile", "Remove", "ReadFile", "WriteFile":
 						id.Name = "verifhook"
 						se.Sel.Name = "Os" + se.Sel.Name
 						changed = true
+					case "Stat", "Lstat", "Truncate", "Link", "Symlink", "ReadDir", "CreateTemp", "MkdirTemp", "Mkdir", "MkdirAll", "RemoveAll", "Chmod", "NewFile", "DirFS":
+						// a file operation the simulated disk does not model: refuse to build
+						// rather than let package app reach the real file system unnoticed
+						unredirected = append(unredirected, fmt.Sprintf("%s: os.%s", p.Fset.Position(se.Pos()), se.Sel.Name))
 					}
 					return true
 				})
@@ -258,6 +263,9 @@ func run(repo, hooks, out string) error {
 			return err
 		}
 		replace[filepath.Join(dir, "zz_verif_sorted_range.go")] = helper
+	}
+	if len(unredirected) > 0 {
+		return fmt.Errorf("package app uses file operations the simulated disk does not model: %s", strings.Join(unredirected, ", "))
 	}
 	if !publishHooked {
 		return fmt.Errorf("(*P2PNode).Publish not found: cannot install the publish hook")
